@@ -1015,12 +1015,24 @@ func (s *Server) handleDecline(req *dhcpv4.DHCPv4) {
 	// Mark IP as unavailable in pool
 	s.leasesMu.Lock()
 	lease, exists := s.leases[mac.String()]
+	if exists && !lease.IP.Equal(declinedIP) {
+		// A client can only decline the address it was given
+		exists = false
+	}
 	if exists {
 		delete(s.leases, mac.String())
 	}
 	s.leasesMu.Unlock()
 
 	if exists && lease != nil {
+		// Remove from circuit-ID secondary index
+		if len(lease.CircuitID) > 0 {
+			cidKey := hex.EncodeToString(lease.CircuitID)
+			s.leasesByCircuitIDMu.Lock()
+			delete(s.leasesByCircuitID, cidKey)
+			s.leasesByCircuitIDMu.Unlock()
+		}
+
 		if pool := s.poolMgr.GetPool(lease.PoolID); pool != nil {
 			pool.MarkUnavailable(declinedIP)
 		}
